@@ -15,7 +15,7 @@ def main():
     def one(p):
         return p, run(p, props)
     out = {}
-    with cf.ThreadPoolExecutor(max_workers=4) as ex:
+    with cf.ThreadPoolExecutor(max_workers=8) as ex:
         for p, res in ex.map(one, patches):
             name = os.path.relpath(p, os.path.join(VERIF, 'adversarial'))
             js = p[:-5] + '.json'
